@@ -86,6 +86,14 @@ def run(ctx):
         run.instance(R3, {"fn": pp.short(fid), "obligation": "an existing %s entry with this slate id => Err before any effect" % ty, "found": info}, held=held)
         if not held:
             run.finding(Finding(R3, fid, "no duplicate check (existing %s entry for this slate id) before the step's effects" % ty, site=f.loc()))
+    # ... nor is a cancelled receive received again
+    frx = ctx.fn(FOREIGN + "receive_tx")
+    if frx:
+        from .shared import replay_guard
+        held, info = replay_guard(ctx, R3, frx, "TxReceivedCancelled")
+        run.instance(R3, {"fn": "foreign::receive_tx", "obligation": "an existing TxReceivedCancelled entry with this slate id => Err before any effect", "found": info}, held=held)
+        if not held:
+            run.finding(Finding(R3, frx.id, "a payment the recipient has cancelled is received again when the same slate is delivered once more: a second log entry (and output) for one slate id, cancel by slate id then finds two entries and is refused", site=frx.loc()))
     # a cancelled send is not reserved again: the private context survives cancel_tx, so the same slate could be
     # locked a second time (second log entry for one slate id, the cancelled transaction comes back to life)
     ftl = ctx.fn(OWNER + "tx_lock_outputs")
